@@ -155,6 +155,16 @@ def run_c14(pid, tier):
             if rec.get("skipped"):
                 continue  # not run because an earlier simulation of the same yaml call failed
             form = "yaml" if j.startswith("yaml") else j
+            # the tables saved for a country that ran earlier in the same by-country call are those of that run alone
+            for occ, tabs in (rec.get("saved_tables_of_others") or {}).items():
+                prev = [r0 for r0 in names[:i] if RT[r0]["cc"] == occ]
+                ref0 = solo.get((prev[-1], "direct")) if prev else None
+                if ref0 is not None and isinstance(ref0[1].get("saved_tables"), dict) and tabs != ref0[1]["saved_tables"]:
+                    diff_t = sorted(k_ for k_ in set(tabs) | set(ref0[1]["saved_tables"]) if tabs.get(k_) != ref0[1]["saved_tables"].get(k_))
+                    out.violation("HistoryIndependent:%s-before-%s:same-call:saved-tables" % (prev[-1], r),
+                                  "the tables saved for %s differ from those of the same run alone once %s has run in the same call: %s" % (occ, RT[r]["cc"], diff_t[:5]),
+                                  dict(history=[list(x) for x in h], differing_tables=diff_t))
+            rec = {k_: v_ for k_, v_ in rec.items() if k_ != "saved_tables_of_others"}
             dg, d = digest(rec, joined=form != "direct")
             ref = solo.get((r, form))
             if ref is not None and dg != ref[0]:
